@@ -2,8 +2,15 @@
 //! properties: C13 C12
 //! note: TLV stream decoding (util/ser_macros.rs _decode_tlv_stream_range!, the macro behind every TLV-carrying message and persisted struct): record types must be strictly increasing, an unknown even type is refused and an unknown odd type is skipped
 //! trusted: R15 (deep slices of a macro_rules body): the guard of the arm that refuses a type not above the last one seen and the condition under which an unknown type is refused, verbatim as bool functions (the macro's own `$` metavariables do not occur in the sliced statements); reading the type and length (BigSize: Kani group ser-canonical), the per-field decoders, the required-field checks and the custom-TLV hook are dropped and not claimed
+//! trusted: assume_specification for core::cmp::max / core::cmp::min (std definitions): present in every unit so that a change that introduces them is verified instead of being rejected by the tool
 use vstd::prelude::*;
 verus! {
+use vstd::std_specs::cmp::*;
+use core::cmp;
+pub assume_specification<T: core::cmp::Ord>[core::cmp::max::<T>](a: T, b: T) -> (r: T)
+    ensures T::obeys_cmp_spec() ==> r == (if b.cmp_spec(&a) == core::cmp::Ordering::Less { a } else { b });
+pub assume_specification<T: core::cmp::Ord>[core::cmp::min::<T>](a: T, b: T) -> (r: T)
+    ensures T::obeys_cmp_spec() ==> r == (if b.cmp_spec(&a) == core::cmp::Ordering::Less { b } else { a });
 pub struct BigSize(pub u64);
 //@extract lightning/src/util/ser_macros.rs :: macro_rules _decode_tlv_stream_range
 //@slice R15
